@@ -68,6 +68,10 @@ def _guard_admits_empty(t, pol, p):
             return False
         if isinstance(t, ast.Compare) and isinstance(t.ops[0], (ast.Is,)) and isinstance(t.comparators[0], ast.Constant) and t.comparators[0].value is None:
             return False  # `p is None`: not a string at all
+        if isinstance(t, ast.Call) and isinstance(t.func, ast.Name) and t.func.id == "isinstance" and len(t.args) == 2 and isinstance(t.args[0], ast.Name) and t.args[0].id == p:
+            names = {n.id for n in ast.walk(t.args[1]) if isinstance(n, ast.Name)}
+            if names and not (names & {"str", "object", "Sized", "Sequence"}):
+                return False  # a test for other types: a string, empty or not, does not pass it
         return None
     # the condition must be false
     if _is_emptiness_test(t, p):
@@ -175,6 +179,58 @@ def _passes_quoting(prog, e):
     return []
 
 
+def _announcement_holes(fi, R, norm):
+    """(template node, announcement, hole expression) for every string the function builds that holds an announcement of the
+    reader followed by a value: `"..Defaults to {x}".format(x=E)`, f"..Defaults to {E}", `"..Defaults to " + E`"""
+    import string
+    out = []
+    for c in ast.walk(fi.node):
+        if isinstance(c, ast.Call) and isinstance(c.func, ast.Attribute) and c.func.attr == "format" and isinstance(c.func.value, ast.Constant) and isinstance(c.func.value.value, str):
+            tpl = c.func.value.value
+            hit = next((r for r in R if norm(r).strip() in norm(tpl)), None)
+            if hit is None:
+                continue
+            after, auto = None, 0
+            for lit, name, _, _ in string.Formatter().parse(tpl):
+                if name is None:
+                    continue
+                idx = name
+                if name == "":
+                    idx, auto = str(auto), auto + 1
+                if lit and norm(hit).strip() in norm(lit):
+                    after = idx
+            if after is None:
+                continue
+            hole = next((k.value for k in c.keywords if k.arg == after), None)
+            if hole is None and after.isdigit() and int(after) < len(c.args):
+                hole = c.args[int(after)]
+            if hole is not None:
+                out.append((c, hit, hole))
+        elif isinstance(c, ast.JoinedStr):
+            prev = None
+            for v in c.values:
+                if isinstance(v, ast.FormattedValue) and prev is not None:
+                    out.append((c, prev, v.value))
+                prev = None
+                if isinstance(v, ast.Constant) and isinstance(v.value, str):
+                    prev = next((r for r in R if norm(v.value).rstrip().endswith(norm(r).strip())), None)
+        elif isinstance(c, ast.BinOp) and isinstance(c.op, ast.Add) and isinstance(c.left, ast.Constant) and isinstance(c.left.value, str):
+            hit = next((r for r in R if norm(c.left.value).rstrip().endswith(norm(r).strip())), None)
+            if hit is not None:
+                out.append((c, hit, c.right))
+    return out
+
+
+def _name_alternatives(fi, name, before):
+    """what a local / parameter may hold where it is used: the values assigned to it earlier in the function, and the
+    parameter itself when some path leaves it as it came"""
+    vals = [st.value for st in ast.walk(fi.node) if isinstance(st, ast.Assign) and any(isinstance(t, ast.Name) and t.id == name for t in st.targets)
+            and (st.lineno, st.col_offset) < (before.lineno, before.col_offset)]
+    if name in fi.params():
+        vals.append(ast.Name(id=name, ctx=ast.Load()))
+    return vals
+
+
 def rule_empty_hole(prog, rep, tier, writer="defaults_utils.set_default_doc"):
     """EMPTY-HOLE: the expression written behind the default announcement cannot be the empty text for a string default."""
     from sa.rules.table import _announce_reader
@@ -184,31 +240,11 @@ def rule_empty_hole(prog, rep, tier, writer="defaults_utils.set_default_doc"):
     fi0 = prog.fn(writer)
     n = 0
     for fi in prog.region(fi0):
-        for c in ast.walk(fi.node):
-            if not (isinstance(c, ast.Call) and isinstance(c.func, ast.Attribute) and c.func.attr == "format" and isinstance(c.func.value, ast.Constant)
-                    and isinstance(c.func.value.value, str)):
-                continue
-            tpl = c.func.value.value
-            hit = next((r for r in R if norm(r).strip() in norm(tpl)), None)
-            if hit is None:
-                continue
-            import string
-            fields = [(lit, name) for lit, name, _, _ in string.Formatter().parse(tpl)]
-            # the field that follows the announcement
-            after = None
-            for lit, name in fields:
-                if lit and norm(hit).strip() in norm(lit) and name is not None:
-                    after = name
-            if after is None:
-                continue
-            hole = next((k.value for k in c.keywords if k.arg == after), None)
-            if hole is None and after.isdigit() and int(after) < len(c.args):
-                hole = c.args[int(after)]
-            if hole is None and after == "" and c.args:
-                hole = c.args[-1]
-            if hole is None:
-                continue
-            alts = _passes_quoting(prog, hole)
+        for c, hit, hole in _announcement_holes(fi, R, norm):
+            exprs = [hole]
+            if isinstance(hole, ast.Name):
+                exprs = _name_alternatives(fi, hole.id, c) or [hole]
+            alts = [a for e in exprs for a in _passes_quoting(prog, e)]
             if not alts:
                 rep.ob("EMPTY-HOLE", "%s: %s" % (prog.owner_name(fi), src(hole, 60)), "unresolved", loc(prog, hole), "no quoting step in the value written behind the announcement")
                 continue
